@@ -10,6 +10,7 @@ Translated (the Rust text determines the Lean definition):
     `Flags` record (a bit inside the compared domain that is not mentioned on the right must be CLEAR), and the final
     conjunction with the HTLC / update_fee emptiness tests;
   * `ChannelState::can_generate_new_commitment` (the send-side gate) and the pinned set of functions that consult it;
+  * `FundedChannel::get_shutdown`: the chain of refusals before any state is changed;
   * `FundedChannel::maybe_propose_closing_signed`: the chain of early returns before the first closing_signed is built;
   * `FundedChannel::closing_signed` (the handler): the chain of guards up to and including the in-progress hold-back;
   * `FundedChannel::timer_check_closing_negotiation_progress`.
@@ -263,6 +264,24 @@ def main():
     users = sorted(set(m.group(1) for m in re.finditer(r'\n\t(?:pub(?:\([a-z]+\))? )?fn (\w+)', ch) if 'channel_state.can_generate_new_commitment()' in ch[m.end():ch.find('\n\t}\n', m.end())]))
     want_users = ['claim_htlc_while_disconnected_dropping_mon_update_legacy', 'fail_htlc', 'get_update_fulfill_htlc', 'maybe_free_holding_cell_htlcs', 'revoke_and_ack', 'send_htlc', 'send_update_fee']
     if users != want_users: raise TranslateError('can_generate_new_commitment: the set of functions consulting it changed: %s (expected %s)' % (users, want_users))
+    # ---- get_shutdown: the refusals before anything is changed ---------------------------------------------------
+    b = sole(ch, 'get_shutdown')
+    ERR = r'\{ return Err\(APIError::\w+ ?\{.*?\}\); \}'
+    gm = re.match(r'^\{ let logger = WithChannelContext::from\(logger, &self\.context, None\); if (.*?) ' + ERR +
+                  r' for htlc in self\.context\.pending_outbound_htlcs\.iter\(\) \{ if let OutboundHTLCState::LocalAnnounced\(_\) = htlc\.state ' + ERR + r' \} if (.*?) ' + ERR +
+                  r' else if (.*?) ' + ERR + r' if (.*?) ' + ERR + r' assert!\(!matches!\(self\.context\.channel_state, ChannelState::ShutdownComplete\)\); if (.*?) ' + ERR +
+                  r' let update_shutdown_script = match self\.context\.shutdown_scriptpubkey \{ Some\(_\) => (true|false), None => \{', b)
+    if not gm: raise TranslateError('get_shutdown: the chain of refusals changed shape: `%s`' % b[:500])
+    if not re.search(r'self\.context\.shutdown_scriptpubkey = Some\(shutdown_scriptpubkey\); (true|false) \}, \}; self\.context\.target_closing_feerate_sats_per_kw = target_feerate_sats_per_kw; self\.context\.channel_state\.set_local_shutdown_sent\(\);', b):
+        raise TranslateError('get_shutdown: code between the refusals and set_local_shutdown_sent changed')
+    def gcond(e, where):
+        e2 = re.sub(r'self\.context\.channel_state\.(is_\w+)\(\)', lambda m: '@' + m.group(1) + '@', norm(e))
+        GA = {'self.context.shutdown_scriptpubkey.is_some()': 'script_set', 'override_shutdown_script.is_some()': 'override_given'}
+        for g in re.findall(r'@(is_\w+)@', e2):
+            if g not in getters and g != 'is_both_sides_shutdown': raise TranslateError('%s: unknown state getter %s' % (where, g))
+            GA['@%s@' % g] = '(%s v f)' % camel(g)
+        return bexpr(e2, GA, where)
+    gs = [gcond(x, 'get_shutdown refusal') for x in gm.groups()[:5]]
     # ---- maybe_propose_closing_signed --------------------------------------------------------------------
     b = sole(ch, 'maybe_propose_closing_signed')
     pm = re.match(r'^\{ if (.*?) \{ return Ok\(\(None, None\)\); \} if (.*?) \{ if let Some\(msg\) = &self\.context\.pending_counterparty_closing_signed\.take\(\) \{ return self\.closing_signed\(fee_estimator, &msg, logger\); \} return Ok\(\(None, None\)\); \} if (.*?) \{ return Ok\(\(None, None\)\); \} let \(our_min_fee, our_max_fee\) = self\.calculate_closing_fee_limits\(fee_estimator\); assert!\(self\.context\.shutdown_scriptpubkey\.is_some\(\)\); let \(closing_tx, total_fee_satoshis\) = self\.build_closing_transaction\(our_min_fee, false\)\?; (?:log_trace!\([^;]*\); )?let closing_signed = self\.get_closing_signed_msg\( &closing_tx, false, total_fee_satoshis, our_min_fee, our_max_fee, logger, \); Ok\(\(closing_signed, None\)\) \}$', b)
@@ -332,6 +351,11 @@ def main():
           '    released, 2 = the parked counterparty closing_signed is handed to `closing_signed` -/',
           'def proposeGate (last_sent ready is_outbound expecting_cs parked : Bool) : Nat :=',
           '  if %s then 0 else if %s then (if parked then 2 else 0) else if %s then 0 else 1' % (p1, p2, p3), '',
+          '/-- FundedChannel::get_shutdown: it refuses (nothing is changed, no shutdown is sent, no ShutdownScript update is generated) iff — the',
+          '    guards in order: stfu / quiescent, an outbound HTLC still LocalAnnounced, shutdown already sent / received, script override conflict,',
+          '    peer disconnected or a monitor update in progress -/',
+          'def getShutdownRefused (v : Nat) (f : Flags) (local_announced_htlc script_set override_given : Bool) : Bool :=',
+          '  (%s) || local_announced_htlc || (%s) || (%s) || (%s) || (%s)' % tuple(gs), '',
           '/-- FundedChannel::closing_signed, the guards in order: 1 = refused (error / warning), 2 = parked in pending_counterparty_closing_signed',
           '    (nothing is answered), 0 = processed (a closing_signed / the closing transaction may be released) -/',
           'def closingSignedGate (pending_signature both_shutdown peer_disconnected no_inbound_htlcs no_outbound_htlcs fee_too_big is_outbound last_sent in_progress : Bool) : Nat :=',
